@@ -90,6 +90,7 @@ type crashFS struct {
 	failDeletes  bool // every file deletion fails, the file stays
 	failList     bool // the next directory listing fails (one-shot)
 	createLeaves bool // a creation hit by the counted fault leaves the empty file behind
+	commitLands  bool // a CommitState / SetStable hit by the counted fault takes effect and returns the error
 	// base: the disk right after the last crash; acts are the actions since then,
 	// numbered from baseCount
 	base      *crashFS
@@ -428,7 +429,15 @@ func (m *cmeta) CommitState(ps types.PersistentState) error {
 	c.mu.Lock()
 	defer c.mu.Unlock()
 	cp := clonePS(ps)
-	if !c.record(&action{kind: actCommit, ps: &cp, rot: c.isRotation(c.meta, &cp)}) {
+	rot := c.isRotation(c.meta, &cp)
+	if !c.record(&action{kind: actCommit, ps: &cp, rot: rot}) {
+		if c.commitLands {
+			// bbolt: the meta page of the transaction is written, its last fdatasync
+			// fails; the error is returned, the new state is what the next Open reads
+			c.acts = append(c.acts, &action{kind: actCommit, ps: &cp})
+			c.meta = &cp
+			c.noteFired("M-landed")
+		}
 		return errInjected
 	}
 	c.meta = &cp
@@ -551,6 +560,15 @@ func (m *cmeta) SetStable(key, value []byte) error {
 		return errors.New("key required / too large")
 	}
 	if !c.record(&action{kind: actStable, k: append([]byte(nil), key...), v: append([]byte(nil), value...), isNil: value == nil}) {
+		if c.commitLands {
+			c.acts = append(c.acts, &action{kind: actStable, k: append([]byte(nil), key...), v: append([]byte(nil), value...), isNil: value == nil})
+			if value == nil {
+				delete(c.stable, string(key))
+			} else {
+				c.stable[string(key)] = append([]byte(nil), value...)
+			}
+			c.noteFired("K-landed")
+		}
 		return errInjected
 	}
 	if value == nil {
